@@ -463,7 +463,9 @@ func c15CollideSub() *engine.Sub {
 		Name:   "commands-whose-hashes-collide",
 		Serial: true,
 		Rule:   "pairs of distinct valid commands /cxxxx/kxxxx of one length with the same sum under FNV-1a/32, FNV-1/32, CRC-32 (IEEE, Castagnoli), Adler-32 and FNV-1a/64 folded or cut to 32 bits (3 pairs each, found by enumeration, re-verified at start-up), parsed one after the other in one process in both orders (Parse, MustParse, New + Join of the segments): each result prints its own text and has its own segments, neither covers the other, each covers itself; non-trivial = all",
-		Bound:  func(string) string { return fmt.Sprintf("%d hash functions x %d pairs x 2 orders x 3 ways in", len(collideHashes), perHash) },
+		Bound: func(string) string {
+			return fmt.Sprintf("%d hash functions x %d pairs x 2 orders x 3 ways in", len(collideHashes), perHash)
+		},
 		Gen: func(tier string, emit func(any) bool) {
 			for p := 0; p < len(collideHashes)*perHash; p++ {
 				for _, bf := range []bool{false, true} {
